@@ -7,6 +7,7 @@ import MatidModel.WyckoffParams
 import MatidGen.AllGroups
 import MatidGen.WyckoffRule
 import MatidProofs.TableSound
+import MatidProofs.ParamsComplete
 
 namespace Matid.Props.C08
 open Matid.Table Matid.WyckoffParams MatidGen
@@ -93,6 +94,17 @@ theorem flag_iff (occupied : List Nat) (table : List (Nat × Nat)) :
     | some p => rw [hf] at h; exact ⟨p, rfl, by simpa using h⟩
   · rintro ⟨code, hc, p, hf, hp⟩
     exact ⟨code, hc, by rw [hf]; simpa using hp⟩
+
+/-- **completeness** ("asking for the Wyckoff sets with parameters succeeds"): if the representative of the position is solvable
+by the reading rule (true for all 1 731 tabulated positions: `repSolvable_all`) and the atoms of the set occupy, modulo lattice
+translations, every position e_k(w) + t_c for some parameter values w (zero on the variables that are not free), the solver
+returns parameters — for every cell, every order of the atoms, every tolerance; by `params_sound` they regenerate the set -/
+theorem params_complete (rule : ReadRule) (firstTol prec : Rat) (e0 : Aff) (rest cents : List Aff) (mask : Nat)
+    (cell : V3 × V3 × V3) (atoms : List V3) (hsolv : repSolvable rule e0 mask = true)
+    (w : V3) (hw : zeroOnFixed mask w)
+    (horbit : ∀ tp ∈ testPositions (e0 :: rest) cents w, ∃ a ∈ atoms, IntClose a tp) :
+    ∃ W, solveParams rule firstTol (e0 :: rest) cents mask cell atoms prec = some W :=
+  Matid.WyckoffParams.params_complete rule firstTol prec e0 rest cents mask cell atoms hsolv w hw horbit
 
 /-! non-vacuity: 98 e ("-x, x, 0") is solvable by the `found` rule and not by the `sameIndex` rule -/
 example : (match SG.g098.letters.getD 4 SG.g098_l0 |>.numeric.map decode with
